@@ -56,41 +56,58 @@ Fixpoint all_seen (tenalg : bool) (s : st) (ths : list tid) (xs : list seen) : b
   | _, _ => false
   end.
 
-(* one step of a history: the operation, its outcome in the implementation, what every observer
-   thread saw afterwards *)
-Definition entry := (op * obs * list seen)%type.
+(* what one thread saw through tensorly.backend and through tensorly.tenalg (None: that manager was
+   not observed in this case) *)
+Definition seen2 := (option seen * option seen)%type.
 
-Fixpoint check (tenalg : bool) (ths : list tid) (s : st) (es : list entry) : bool :=
+Definition seen2_ok (s : st2) (t : tid) (x : seen2) : bool :=
+  match fst x with Some a => seen_ok false (s_bk s) t a | None => true end &&
+  match snd x with Some a => seen_ok true (s_ta s) t a | None => true end.
+
+Fixpoint all_seen2 (s : st2) (ths : list tid) (xs : list seen2) : bool :=
+  match ths, xs with
+  | [], [] => true
+  | t :: ths', x :: xs' => seen2_ok s t x && all_seen2 s ths' xs'
+  | _, _ => false
+  end.
+
+(* one step of a history: the operation (with its manager), its outcome in the implementation, what
+   every observer thread saw afterwards *)
+Definition entry := (mop * obs * list seen2)%type.
+
+Fixpoint check (ths : list tid) (s : st2) (es : list entry) : bool :=
   match es with
   | [] => true
   | (o, ob, xs) :: es' =>
-      let (s', ob') := step fixed_rules (cfg_of tenalg) s o in
-      obs_eqb ob' ob && all_seen tenalg s' ths xs && check tenalg ths s' es'
+      let (s', ob') := step2 fixed_rules cfg_backend cfg_tenalg s o in
+      obs_eqb ob' ob && all_seen2 s' ths xs && check ths s' es'
   end.
 
 Definition own_of (l : list (tid * inst)) : tid -> option inst :=
   fun t => match find (fun p => Nat.eqb (fst p) t) l with Some p => Some (snd p) | None => None end.
 
-(* id, manager (false = tensorly.backend, true = tensorly.tenalg), threads that already hold a
-   selection at the start (the importing thread), observer threads, what they saw at the start,
-   the history *)
-Definition hcase := (bool * list (tid * inst) * list tid * list seen * list entry)%type.
+(* threads that already hold a selection at the start (the importing thread holds the default of
+   BOTH managers), observer threads, what they saw at the start, the history *)
+Definition hcase := (list (tid * inst) * list tid * list seen2 * list entry)%type.
 
 Definition agree_h (c : hcase) : bool :=
-  let '(tenalg, own0, ths, xs0, es) := c in
-  let s := init (own_of own0) in
-  all_seen tenalg s ths xs0 && check tenalg ths s es.
+  let '(own0, ths, xs0, es) := c in
+  let s := init2 (own_of own0) in
+  all_seen2 s ths xs0 && check ths s es.
 
 (* ---- compact transport format.  Elaborating tens of thousands of nested list literals (or of long
    binary numerals) costs Coq several ms per history, so the harness ships every history + observations
    as a stream of base-64 digits:
-     tenalg, nthreads, main_holds_selection, seen * nthreads, nsteps,
-     then per step: kind (0 set, 1 enter, 2 exit), thread, a, b, c, outcome, seen * nthreads
+     mode (0: only tensorly.backend is driven and observed, 1: only tensorly.tenalg, 2: both),
+     nthreads, main_holds_selection, seen * nthreads, nsteps,
+     then per step: kind + 4 * manager (kind 0 set, 1 enter, 2 exit; manager 0 backend, 1 tenalg),
+                    thread, a, b, c, outcome, seen * nthreads
        set/enter: a = selector kind (0 name, 1 instance, 2 non-instance), b = its index, c = local flag
        exit     : a = exceptional?, b = c = 0
        outcome  : 0 done, 1 rejected, 2 exit failed, 3 no context
-     seen = two digits: code of the name get_backend() returned (63 = a name outside the tables),
-            executing object (0 unmarked stock object, 1 unidentified, 2+n Named n, 8+k Obj k) *)
+     seen = two digits per observed manager (mode 2: backend first): code of the name get_backend()
+            returned (63 = a name outside the tables), executing object (0 unmarked stock object,
+            1 unidentified, 2+n Named n, 8+k Obj k) *)
 (* the digit stream travels as a list of primitive 63-bit integers (literals of primitive integers
    are parsed natively: no unary / binary numeral has to be normalised while the file is read): the
    first integer is the number of digits, every further one carries 10 digits, least significant first *)
@@ -115,13 +132,22 @@ Definition pack (ds : list nat) : list int := Uint63.of_Z (Z.of_nat (length ds))
 Definition dec_tok (d : nat) : option inst :=
   match d with 0 => None | 1 => Some (Foreign 99) | _ => if d <? 8 then Some (Named (d - 2)) else Some (Obj (d - 8)) end.
 
-Fixpoint dec_seen (n : nat) (l : list nat) : option (list seen * list nat) :=
+Definition dec_one (q d : nat) : seen := (q, dec_tok d).
+
+Fixpoint dec_seen (mode n : nat) (l : list nat) : option (list seen2 * list nat) :=
   match n with
   | O => Some ([], l)
-  | S n' => match l with
-            | q :: d :: l' => match dec_seen n' l' with Some (xs, r) => Some ((q, dec_tok d) :: xs, r) | None => None end
-            | _ => None
-            end
+  | S n' =>
+      match mode, l with
+      | 0, q :: d :: l' =>
+          match dec_seen mode n' l' with Some (xs, r) => Some ((Some (dec_one q d), None) :: xs, r) | None => None end
+      | 1, q :: d :: l' =>
+          match dec_seen mode n' l' with Some (xs, r) => Some ((None, Some (dec_one q d)) :: xs, r) | None => None end
+      | 2, q :: d :: q' :: d' :: l' =>
+          match dec_seen mode n' l' with
+          | Some (xs, r) => Some ((Some (dec_one q d), Some (dec_one q' d')) :: xs, r) | None => None end
+      | _, _ => None
+      end
   end.
 
 Definition dec_sel (a b : nat) : sel :=
@@ -130,20 +156,28 @@ Definition dec_bool (c : nat) : bool := negb (Nat.eqb c 0).
 Definition dec_out (d : nat) : obs :=
   match d with 0 => ODone | 1 => ORejected | 2 => OExitFailed | _ => ONoCtx end.
 
-Fixpoint dec_steps (nth n : nat) (l : list nat) : option (list entry) :=
+(* in the single-manager modes every operation must name that manager *)
+Definition mgr_ok (mode : nat) (m : bool) : bool :=
+  match mode with 0 => negb m | 1 => m | _ => true end.
+
+Fixpoint dec_steps (mode nth n : nat) (l : list nat) : option (list entry) :=
   match n with
   | O => match l with [] => Some [] | _ => None end
   | S n' =>
       match l with
-      | k :: t :: a :: b :: c :: o :: l' =>
-          match dec_seen nth l' with
+      | km :: t :: a :: b :: c :: o :: l' =>
+          let m := 4 <=? km in
+          let k := if m then km - 4 else km in
+          match dec_seen mode nth l' with
           | Some (xs, r) =>
               let op := match k with
                         | 0 => Set_ t (dec_sel a b) (dec_bool c)
                         | 1 => Enter t (dec_sel a b) (dec_bool c)
                         | _ => Exit_ t (dec_bool a)
                         end in
-              match dec_steps nth n' r with Some es => Some ((op, dec_out o, xs) :: es) | None => None end
+              if mgr_ok mode m then
+                match dec_steps mode nth n' r with Some es => Some (((m, op), dec_out o, xs) :: es) | None => None end
+              else None
           | None => None
           end
       | _ => None
@@ -152,11 +186,11 @@ Fixpoint dec_steps (nth n : nat) (l : list nat) : option (list entry) :=
 
 Definition decode (x : list int) : option hcase :=
   match digits x with
-  | ta :: nth :: own :: l =>
-      match dec_seen nth l with
+  | mode :: nth :: own :: l =>
+      match dec_seen mode nth l with
       | Some (xs0, ns :: r) =>
-          match dec_steps nth ns r with
-          | Some es => Some (dec_bool ta, if dec_bool own then [(0, Named 0)] else [], seq 0 nth, xs0, es)
+          match dec_steps mode nth ns r with
+          | Some es => Some (if dec_bool own then [(0, Named 0)] else [], seq 0 nth, xs0, es)
           | None => None
           end
       | _ => None
@@ -167,8 +201,9 @@ Definition decode (x : list int) : option hcase :=
 (* a case: (id, encoded history with observations).  An undecodable case counts as failing. *)
 Definition case := (N * list int)%type.
 Definition agree (c : case) : bool := match decode (snd c) with Some h => agree_h h | None => false end.
-Definition ident (c : case) : nat := N.to_nat (fst c).
-Definition failing := failing_ids agree ident.
+(* ids of the disagreeing cases, as binary numbers, at most 40 per shard (a defect that makes most
+   histories disagree must not blow up the answer) *)
+Definition failing (cs : list case) : list N := firstn 40 (map fst (filter (fun c => negb (agree c)) cs)).
 
 
 (* short forms for hand-written cases *)
@@ -179,16 +214,26 @@ Definition n_ (q k : nat) : seen := (q, Some (Named k)).     (* get_backend code
 Definition o_ (q k : nat) : seen := (q, Some (Obj k)).       (* ... by harness instance k *)
 Definition u_ (q : nat) : seen := (q, None).                 (* ... by an unmarked object of a stock class *)
 Definition x_ (q : nat) : seen := (q, Some (Foreign 99)).    (* ... by an object the harness cannot identify *)
+Definition bk (x : seen) : seen2 := (Some x, None).
+Definition ta (x : seen) : seen2 := (None, Some x).
 
 (* the decoder and the comparator are live: a history in transport format decodes to the expected
    structure, agrees, and stops agreeing when one observation is altered *)
 Example decode_example :
-  (* tenalg=0, 2 threads, main holds; seen: (0,Named 0) (0,Named 0); 1 step: Set_ 1 (so 1) true, done; seen (0,Named 0) (2,Obj 1) *)
+  (* backend only, 2 threads, main holds; seen: (0,Named 0) (0,Named 0); 1 step: Set_ 1 (so 1) true, done; seen (0,Named 0) (2,Obj 1) *)
   let ds := [0;2;1; 0;2; 0;2; 1; 0;1;1;1;1;0; 0;2; 2;9] in
   let ds' := [0;2;1; 0;2; 0;2; 1; 0;1;1;1;1;0; 0;2; 2;10] in
+  (* both managers: the same step issued to tensorly.tenalg (kind 0 + 4), Obj 1 is of class tkb = name 3 there *)
+  let ds2 := [2;2;1; 0;2;0;2; 0;2;0;2; 1; 4;1;1;1;1;0; 0;2;0;2; 0;2;3;9] in
+  (* ... and the same with tensorly.backend's view of thread 1 disturbed by it *)
+  let ds2' := [2;2;1; 0;2;0;2; 0;2;0;2; 1; 4;1;1;1;1;0; 0;2;0;2; 2;9;3;9] in
   digits (pack ds) = ds /\
-  decode (pack ds) = Some (false, [(0, Named 0)], [0;1], [n_ 0 0; n_ 0 0], [(Set_ 1 (so 1) true, ODone, [n_ 0 0; o_ 2 1])]) /\
+  decode (pack ds) = Some ([(0, Named 0)], [0;1], [bk (n_ 0 0); bk (n_ 0 0)],
+                           [((false, Set_ 1 (so 1) true), ODone, [bk (n_ 0 0); bk (o_ 2 1)])]) /\
   agree (0%N, pack ds) = true /\
   agree (0%N, pack ds') = false /\
-  agree (0%N, pack (ds ++ [0])) = false.
+  agree (0%N, pack (ds ++ [0])) = false /\
+  agree (0%N, pack ds2) = true /\
+  agree (0%N, pack ds2') = false /\
+  failing [(7%N, pack ds); (8%N, pack ds'); (9%N, pack ds2')] = [8%N; 9%N].
 Proof. vm_compute. repeat split. Qed.
